@@ -272,7 +272,9 @@ var Vals = []string{"v1", "v2", "x", "7", "a=b", "v-1", "a b", "é", "=", "x--",
 	"a-value-that-is-longer-than-sixty-four-bytes-0123456789-0123456789-0123456789-0123456789", "08", "010", "9223372036854775808", "TRUE", "100%", "$HOME", "caf\xe9", "\"v\"", "\"a b\"", "—",
 	"a-value-of-about-two-hundred-bytes-" + strings.Repeat("0123456789", 17),
 	// values spelled like the letters of help / version / declared options: attached to a short option they must stay values
-	"hello", "h", "help", "Version", "abo", "fi"}
+	"hello", "h", "help", "Version", "abo", "fi",
+	// blanks and commas are characters of a value like any other, whatever the spelling
+	" v ", "a,b", "a, b", " "}
 var Poss = []string{"p1", "p2", "q", "3", "-", "p1", "x=y", "é", "+1", "%s", "tab\there", "語", "—", "\"q\"", "help", "h", "", "true", "false",
 	"a-positional-that-is-longer-than-sixty-four-bytes-0123456789-0123456789-0123456789-0123456789"}
 
